@@ -54,6 +54,7 @@ type verifSrc struct {
 	fail  bool
 	tag   string
 	calls int
+	eager bool // the final error comes together with the last bytes, as io.Reader allows
 }
 
 func (r *verifSrc) Read(p []byte) (int, error) {
@@ -74,6 +75,12 @@ func (r *verifSrc) Read(p []byte) (int, error) {
 	}
 	copy(p, r.data[r.off:r.off+n])
 	r.off += n
+	if r.eager && r.off >= len(r.data) {
+		if r.fail {
+			return n, io.ErrUnexpectedEOF
+		}
+		return n, io.EOF
+	}
 	return n, nil
 }
 
@@ -208,10 +215,11 @@ func VerifH_BufferDifferential() {
 		case 13:
 			data := symx.Bytes("src", verifSize("srcSize"))
 			fail := symx.Bool("srcFails")
-			r1 := &verifSrc{data: data, fail: fail, tag: "chunk"}
+			eager := symx.Bool("srcErrorWithLastBytes")
+			r1 := &verifSrc{data: data, fail: fail, tag: "chunk", eager: eager}
 			n1, e1 := t.ReadFrom(r1)
 			// the second reader replays the same fragmentation is unnecessary: ReadFrom's result must not depend on it
-			r2 := &verifSrc{data: data, fail: fail}
+			r2 := &verifSrc{data: data, fail: fail, eager: eager}
 			n2, e2 := s.ReadFrom(r2)
 			symx.Assert(n1 == n2, "ReadFrom count")
 			verifErrSame(e1, e2, "ReadFrom")
